@@ -2,7 +2,12 @@
    Statements only; every proof is one `exact`.  Definitions: see Properties/C05.v;
    [run_f] runs a history whose updates have fault points armed ([fpoint]: tcp maps, the four
    frontend map files, backend maps, tcp crt-lists, main file, each shard file, reload
-   request, reload result); [step_f e fs s l] is one reconciliation (batch l, faults fs). *)
+   request, reload result, connection carrying `reload` reset by the master; and FReloadSilent,
+   below); [step_f e fs s l] is one reconciliation (batch l, faults fs).
+   [wf_hist] and the hypotheses [armed fs FReloadSilent = false] leave out exactly one fault: a
+   master that reads `reload`, drops it (no answer or garbage) WITHOUT reloading and whose
+   `show proc` shows the old healthy worker - nothing signals it to the controller; see
+   C12_silent_reload_drop_refuted. *)
 From Coq Require Import NArith List.
 From HI Require Import Model.ConfigSM Model.ConfigSM_Faults Proofs.ConfigSM Proofs.ConfigSM_Faults.
 Import ListNotations.
@@ -45,7 +50,7 @@ Print Assumptions C12_retry_equals_fault_free.
    (and, inline, a running haproxy) that are exactly those of the current state *)
 Theorem C12_success_is_convergence : forall e dn, shard_range e ->
   forall h, wf_hist e dn inst_empty h ->
-  forall l fs s', wf_batch e dn (i_cfg (run_f e inst_empty h)) l ->
+  forall l fs s', wf_batch e dn (i_cfg (run_f e inst_empty h)) l -> armed fs FReloadSilent = false ->
     step_f e fs (run_f e inst_empty h) l = (s', false) ->
     i_failed s' = false /\ disk_ok e (i_cfg s') (i_disk s') /\
     (inline e = true -> exists r, i_running s' = Some r /\ disk_ok e (i_cfg s') r).
@@ -56,7 +61,7 @@ Print Assumptions C12_success_is_convergence.
    succeeds the running haproxy has loaded the files of the current state *)
 Theorem C12_retry_converges_reload_queue : forall e dn, shard_range e -> inline e = false ->
   forall h, wf_hist e dn inst_empty h ->
-  forall l fs s', wf_batch e dn (i_cfg (run_f e inst_empty h)) l ->
+  forall l fs s', wf_batch e dn (i_cfg (run_f e inst_empty h)) l -> armed fs FReloadSilent = false ->
     step_f e fs (run_f e inst_empty h) l = (s', false) ->
   forall results, i_pending s' = true -> In true results ->
     let s'' := reload_attempts results s' in
@@ -70,7 +75,8 @@ Print Assumptions C12_retry_converges_reload_queue.
    are gone, files of shards beyond a smaller shard count); the reconciliations that follow
    converge: an update that reports success leaves exactly the current state *)
 Theorem C12_restart_converges : forall e dn, shard_range e ->
-  forall s l fs s', wf_batch e dn (i_cfg (restart s)) l -> step_f e fs (restart s) l = (s', false) ->
+  forall s l fs s', wf_batch e dn (i_cfg (restart s)) l -> armed fs FReloadSilent = false ->
+    step_f e fs (restart s) l = (s', false) ->
     disk_ok e (i_cfg s') (i_disk s') /\
     (inline e = true -> exists r, i_running s' = Some r /\ disk_ok e (i_cfg s') r).
 Proof. exact restart_converges. Qed.
@@ -78,7 +84,7 @@ Print Assumptions C12_restart_converges.
 
 Theorem C12_restart_then_history : forall e dn, shard_range e ->
   forall s h, wf_hist e dn (restart s) h ->
-  forall l fs s', wf_batch e dn (i_cfg (run_f e (restart s) h)) l ->
+  forall l fs s', wf_batch e dn (i_cfg (run_f e (restart s) h)) l -> armed fs FReloadSilent = false ->
     step_f e fs (run_f e (restart s) h) l = (s', false) ->
     disk_ok e (i_cfg s') (i_disk s').
 Proof. exact restart_then_history. Qed.
@@ -91,3 +97,16 @@ Theorem C12_restart_witness :
   disk_ok w_env (i_cfg w_s2) (i_disk w_s2) /\ d_shard (i_disk w_s2) 1 = None /\ d_shard (i_disk w_s1) 1 <> None.
 Proof. exact restart_witness_converges. Qed.
 Print Assumptions C12_restart_witness.
+
+(* without that hypothesis the statement is false: the master drops `reload` silently; the
+   update reports success, the files are right, nothing is retried, and what the running
+   haproxy has loaded is not the current state (it keeps a backend that is gone) *)
+Theorem C12_silent_reload_drop_refuted :
+  exists e dn h l fs s',
+    shard_range e /\ inline e = true /\ wf_hist e dn inst_empty h /\
+    wf_batch e dn (i_cfg (run_f e inst_empty h)) l /\
+    step_f e fs (run_f e inst_empty h) l = (s', false) /\
+    disk_ok e (i_cfg s') (i_disk s') /\
+    forall r, i_running s' = Some r -> ~ disk_ok e (i_cfg s') r.
+Proof. exact silent_reload_drop_refuted. Qed.
+Print Assumptions C12_silent_reload_drop_refuted.
